@@ -52,7 +52,8 @@ def run(chk, build):
             o = {"cmp": None, "rn": RN3}
         else:
             dt = r.random() < 0.25
-            s = gen.Gen(r.randrange(10 ** 9), datetime=dt).samples(depth=3, nmax=4)
+            gg = gen.Gen(r.randrange(10 ** 9), datetime=dt)
+            s = gg.variants() if i % 3 == 1 else gg.samples(depth=3, nmax=4)
             o = {"cmp": r.choice([None, None, [("exact",)], [("percent", 0.5)], [("number", 2)]]), "rn": RN6 if dt else RN3,
                  "dkf": r.choice([None, None, ["a"]])}
         ref, err = registry_canon(s, o)
